@@ -25,7 +25,7 @@ func init() {
 		Race:         true,
 		RaceAdvisory: true, // client-side races are judged by C20; here they are only counted
 		CaseTimeout:  200e9,
-		Rule: "two kinds of cases. (a) notification content / count, deterministic, direct mode: scenarios of C05's generator; after every request and server idleness the MQTT stand-in's publish log must have grown by exactly one message on <collection>/<key> carrying {CUID: pusher, DUID, sseq: new end of log} for every datatype of the request that stored >= 1 operation, and by none otherwise. (b) realtime: 2-5 REALTIME SDK clients over real grpc and real paho clients on the MQTT stand-in (deliveries delayed at random; responses of served requests held back 0-5 ms so that notifications overtake them; a solo client loses 40 % of the responses to its pushes) subscribe, complete their first sync (in a quarter of the cases a notification naming another datatype id with a huge sequence number is then delivered on the key's topic) and then only issue local operations and small committed transactions from their own goroutines at random moments, no Sync() call; after the last operation the harness waits for logical quiescence (no RPC in flight, no queued delivery, no announced background goroutine, no database command in progress, and no new RPC / publish event during a 2 s silence window) and then requires equal state on all clients and nothing left to push; then an epilogue steered by logical events follows, with the same quiescence oracle: A's next push is held at the front after it was served and either (0) A issues a second operation and the notification of a push B made earlier (deliveries were held at the broker) is released to A during that flight, or (1) B pushes after A's request was served and its notification reaches A during that flight; then nothing else happens; no client may start a push-pull because of a notification that its own push caused (hook events dm.notification / dm.sync.on-notification joined on receiver and sseq; a solo client, all of whose notifications are its own, must also issue no more push-pull RPCs than its local operations started); the run is under the race detector; " +
+		Rule: "two kinds of cases. (a) notification content / count, deterministic, direct mode: scenarios of C05's generator; after every request and server idleness the MQTT stand-in's publish log must have grown by exactly one message on <collection>/<key> carrying {CUID: pusher, DUID, sseq: new end of log} for every datatype of the request that stored >= 1 operation, and by none otherwise. (b) realtime: 2-5 REALTIME SDK clients over real grpc and real paho clients on the MQTT stand-in (deliveries delayed at random; responses of served requests held back 0-5 ms so that notifications overtake them; a solo client loses 40 % of the responses to its pushes) subscribe, complete their first sync (in a quarter of the cases a notification naming another datatype id with a huge sequence number is then delivered on the key's topic) and then only issue local operations and small committed transactions from their own goroutines at random moments, no Sync() call; after the last operation the harness waits for logical quiescence (no RPC in flight, no queued delivery, no announced background goroutine, no database command in progress, and no new RPC / publish event during a 2 s silence window) and then requires equal state on all clients and nothing left to push; then an epilogue steered by logical events follows, with the same quiescence oracle: A's next push is held at the front after it was served and either (0) A issues a second operation and the notification of a push B made earlier (deliveries were held at the broker) is released to A during that flight, (1) B pushes after A's request was served and its notification reaches A during that flight, or (2) two held notifications of B are released together - the first starts A's pull, the second waits in A's queue - and a third push of B is announced while A's receive loop is busy; then nothing else happens; no client may start a push-pull because of a notification that its own push caused (hook events dm.notification / dm.sync.on-notification joined on receiver and sseq; a solo client, all of whose notifications are its own, must also issue no more push-pull RPCs than its local operations started); the run is under the race detector; " +
 			"non-trivial = (a) >= 3 requests stored operations and >= 1 stored none; (b) >= 2 clients issued operations concurrently; distinct = hash of the script (a) / of the observed RPC order (b)",
 		Assumptions: []string{
 			"'converge by themselves' is decided as bounded progress to logical quiescence; not quiescent within 60 s => inconclusive",
@@ -396,7 +396,7 @@ func c18Realtime(c *core.Case) *core.Result {
 		//  variant 1: B pushes AFTER A's request was served (so A's response cannot contain it)
 		//             and B's notification reaches A during that flight.
 		// Nothing else happens afterwards: whatever A and B issued must still reach everybody.
-		variant := (c.Index / 2) % 2
+		variant := []int{0, 1, 2, 0}[(c.Index/2)%4] // the first shape depends most on scheduling: it gets half of the cases
 		A, B := cls[0], cls[1]
 		gA := crdt.NewGen(newRand(r.Int63()))
 		released := true
@@ -407,6 +407,58 @@ func c18Realtime(c *core.Case) *core.Result {
 			}
 		}
 		defer release()
+		if variant == 2 {
+			// two notifications of B wait at the broker; released together, the first makes A pull
+			// (its request is served, the response held at the front), the second is stale and sits
+			// in A's notification queue; then B pushes again: that third notification reaches a
+			// client whose receive loop is busy and whose queue already holds one. It announces an
+			// operation A's held response cannot contain, so it must not get lost.
+			b.MQ.Hold()
+			released = false
+			for k := 0; k < 2; k++ {
+				pubs0 := b.MQ.NumPubs()
+				crdt.Apply(B.dt, sureOp(typ, gA))
+				for t := 0; t < 500 && b.MQ.NumPubs() == pubs0; t++ {
+					time.Sleep(10 * time.Millisecond)
+				}
+				if b.MQ.NumPubs() == pubs0 {
+					return c.Inconclusive("epilogue: B's push was not announced within 5 s")
+				}
+			}
+			served := make(chan struct{}, 1)
+			letGo := make(chan struct{})
+			var armed int32 = 1
+			rpc.SetFaults(nil, func(req *model.PushPullMessage) time.Duration {
+				if req.Cuid == A.cuid && atomic.CompareAndSwapInt32(&armed, 1, 0) {
+					served <- struct{}{}
+					select {
+					case <-letGo:
+					case <-time.After(5 * time.Second):
+					}
+				}
+				return 0
+			})
+			release() // both notifications reach A; the first starts a pull
+			select {
+			case <-served:
+			case <-time.After(5 * time.Second):
+				close(letGo)
+				return c.Inconclusive("epilogue: A did not start a pull on B's notifications within 5 s")
+			}
+			time.Sleep(20 * time.Millisecond) // schedule shaping only: let the second notification reach A's queue
+			pubs0 := b.MQ.NumPubs()
+			crdt.Apply(B.dt, sureOp(typ, gA))
+			for t := 0; t < 500 && (b.MQ.NumPubs() == pubs0 || b.MQ.Queued() != 0); t++ {
+				time.Sleep(10 * time.Millisecond)
+			}
+			time.Sleep(20 * time.Millisecond) // schedule shaping only: the third notification is at A now
+			close(letGo)
+			c.Step("epilogue variant 2")
+			c.Count("epilogues_variant_2", 1)
+			if res := settleAndCompare("after a third notification met a busy receive loop whose queue already held a stale one"); res != nil {
+				return res
+			}
+		}
 		if variant == 0 {
 			b.MQ.Hold()
 			released = false
@@ -419,57 +471,59 @@ func c18Realtime(c *core.Case) *core.Result {
 				return c.Inconclusive("epilogue: B's push was not announced within 5 s")
 			}
 		}
-		served := make(chan struct{}, 1)
-		arrived := make(chan struct{}, 1)
-		var armed int32 = 1
-		var seenInFlight int32
-		b.OnHook(func(point string, args ...interface{}) {
-			if point == "dm.notification" && len(args) >= 2 && args[0] == A.cuid && args[1] == B.cuid {
-				select {
-				case arrived <- struct{}{}:
-				default:
+		if variant != 2 {
+			served := make(chan struct{}, 1)
+			arrived := make(chan struct{}, 1)
+			var armed int32 = 1
+			var seenInFlight int32
+			b.OnHook(func(point string, args ...interface{}) {
+				if point == "dm.notification" && len(args) >= 2 && args[0] == A.cuid && args[1] == B.cuid {
+					select {
+					case arrived <- struct{}{}:
+					default:
+					}
 				}
-			}
-		})
-		rpc.SetFaults(nil, func(req *model.PushPullMessage) time.Duration {
-			if req.Cuid == A.cuid && atomic.CompareAndSwapInt32(&armed, 1, 0) {
-				served <- struct{}{}
-				select {
-				case <-arrived:
-					atomic.StoreInt32(&seenInFlight, 1)
-				case <-time.After(3 * time.Second):
+			})
+			rpc.SetFaults(nil, func(req *model.PushPullMessage) time.Duration {
+				if req.Cuid == A.cuid && atomic.CompareAndSwapInt32(&armed, 1, 0) {
+					served <- struct{}{}
+					select {
+					case <-arrived:
+						atomic.StoreInt32(&seenInFlight, 1)
+					case <-time.After(3 * time.Second):
+					}
+					return 5 * time.Millisecond
 				}
-				return 5 * time.Millisecond
+				return 0
+			})
+			crdt.Apply(A.dt, sureOp(typ, gA))
+			select {
+			case <-served:
+			case <-time.After(5 * time.Second):
+				return c.Inconclusive("epilogue: A's push did not reach the front within 5 s")
 			}
-			return 0
-		})
-		crdt.Apply(A.dt, sureOp(typ, gA))
-		select {
-		case <-served:
-		case <-time.After(5 * time.Second):
-			return c.Inconclusive("epilogue: A's push did not reach the front within 5 s")
-		}
-		stage := ""
-		if variant == 0 {
-			crdt.Apply(A.dt, sureOp(typ, gA)) // while A's push is in flight
-			release()                         // B's earlier notification now reaches A, still during the flight
-			stage = "after a push in flight met a second local operation and a delayed foreign notification"
-		} else {
-			crdt.Apply(B.dt, sureOp(typ, gA)) // committed after A's request was served; announced to A during the flight
-			stage = "after a notification arrived during the client's own push whose response cannot contain the announced operation"
-		}
-		c.Step("epilogue variant %d", variant)
-		c.Count(fmt.Sprintf("epilogues_variant_%d", variant), 1)
-		epilogueSeen := &seenInFlight
-		defer func() {
-			if atomic.LoadInt32(epilogueSeen) == 1 {
-				c.Count("epilogue_notification_arrived_during_flight", 1)
+			stage := ""
+			if variant == 0 {
+				crdt.Apply(A.dt, sureOp(typ, gA)) // while A's push is in flight
+				release()                         // B's earlier notification now reaches A, still during the flight
+				stage = "after a push in flight met a second local operation and a delayed foreign notification"
 			} else {
-				c.Count("epilogue_notification_not_seen_during_flight", 1)
+				crdt.Apply(B.dt, sureOp(typ, gA)) // committed after A's request was served; announced to A during the flight
+				stage = "after a notification arrived during the client's own push whose response cannot contain the announced operation"
 			}
-		}()
-		if res := settleAndCompare(stage); res != nil {
-			return res
+			c.Step("epilogue variant %d", variant)
+			c.Count(fmt.Sprintf("epilogues_variant_%d", variant), 1)
+			epilogueSeen := &seenInFlight
+			defer func() {
+				if atomic.LoadInt32(epilogueSeen) == 1 {
+					c.Count("epilogue_notification_arrived_during_flight", 1)
+				} else {
+					c.Count("epilogue_notification_not_seen_during_flight", 1)
+				}
+			}()
+			if res := settleAndCompare(stage); res != nil {
+				return res
+			}
 		}
 	}
 	nmu.Lock()
